@@ -120,6 +120,11 @@ TrApply ==
           \cup Cl(Len(Ev.gpos) = K /\ \A j, k \in 1..K : Ev.grp[j] = Ev.grp[k]
                       => Ev.found[Ev.gpos[j] + 1] = Ev.found[Ev.gpos[k] + 1],
                   "GroupMembersGetTheSameFlow")
+          \* groups are ordered by the grouping parameter of the input's own
+          \* profiles (1 ppm slack)
+          \cup Cl(Len(Ev.gparam) = K /\ \A j, k \in 1..K : Ev.grp[j] < Ev.grp[k]
+                      => Ev.gparam[j] >= Ev.gparam[k] - 1,
+                  "GroupsOrderedByGroupingParameter")
           \cup Cl(\A p \in 1..n : (\A k \in 1..K : Ev.gpos[k] + 1 # p)
                       => Close(Ev.found[p], Ev.ngflow[p], Ev.tol),
                   "UngroupedAssemblyKeepsItsOwnFlow"))
